@@ -307,6 +307,54 @@ theorem negative_digit_comp_correct_all {E : Env} {r : Nat} (h : EnvRadix E r) {
     exact negativeDigitComp_tiny_weak lay hden hdbg (show r = 2 * (r / 2) by omega) Th T2 hM fp hm2 (by omega) he he'
       (by simpa using hhi) hg.1 hg.2
 
+/-- the capacity guard when the estimate rounds down to `+∞`: `b + h` is `(2·2^(p−1) + 1)·2^(2^eb − 2 − bias)` -/
+def NegGuardInf (E : Env) (F : FTy) (p radix M : Nat) (e : Int) : Prop :=
+  (2 * 2 ^ (p - 1) + 1) * (radix / 2) ^ (-e).toNat *
+      2 ^ (((2 ^ F.fmt.ebits - 2 : Nat) : Int) - F.C.exponentBias - e).toNat < 2 ^ (64 * E.L.bigintLimbs) ∧
+  M * 2 ^ (-(((2 ^ F.fmt.ebits - 2 : Nat) : Int) - F.C.exponentBias - e)).toNat < 2 ^ (64 * E.L.bigintLimbs)
+
+/-- the two big integers of `negative_digit_comp` fit: for a finite round-down `NegGuard`, for `+∞` `NegGuardInf` -/
+def NegFit (E : Env) (F : FTy) (p radix M : Nat) (fp : ExtendedFloat80) (e : Int) : Prop :=
+  (roundedDown F fp < F.fmt.infBits ∧ NegGuard E F p radix M fp e) ∨
+  (roundedDown F fp = F.fmt.infBits ∧ NegGuardInf E F p radix M e)
+
+/-- **(c) total**: every normalised estimate — below the underflow cut, finite, or rounding down to `+∞` — that
+weakly brackets the value, with the capacity guard that belongs to its case -/
+theorem negative_digit_comp_correct_total {E : Env} {r : Nat} (h : EnvRadix E r) {F : FTy} {p eb : Nat}
+    (lay : Layout F p eb) (hden : F.C.denormalExponent = 1 - F.C.exponentBias)
+    {M : Nat} (hM : M ≠ 0) (fp : ExtendedFloat80) (hm1 : 2 ^ 63 ≤ fp.mant) (hm2 : fp.mant < 2 ^ 64)
+    (hfe : fp.exp < 2 ^ 20) {e : Int} (he : e < 0) (he' : -(2 ^ 28 : Int) < e)
+    (hbr : WeakBracket F fp M (r ^ (-e).toNat)) (hg : NegFit E F p r M fp e) :
+    ∃ res, negativeDigitComp E F r M fp e = some res ∧ 0 ≤ res.exp ∧
+      extendedToFloat F res = roundNE F.fmt M (r ^ (-e).toNat) := by
+  rcases hg with ⟨hfin, hg⟩ | ⟨hinf, hg⟩
+  · exact negative_digit_comp_correct_all h lay hden hM fp hm1 hm2 hfe he he' hfin hbr hg
+  · obtain ⟨hr2, hev, hdbg, _⟩ := envRadix_facts h
+    obtain ⟨_, Th, T2⟩ := bigPowOk_of_envRadix h
+    have hfp : F.fmt.p = p := by rw [lay.fmt]
+    have hpos := LexVerif.Proof.RoundNE.infBits_pos lay.wf
+    have hp2 : -fp.exp + 1 ≤ 64 := by
+      apply Classical.byContradiction; intro hcon
+      rw [roundedDown_tiny lay fp hm2 (by omega)] at hinf
+      omega
+    have hov : F.fmt.infBits ≤ (fp.exp + 64 - p - 1).toNat * 2 ^ (p - 1) + fp.mant / 2 ^ shiftOf p fp.exp := by
+      unfold roundedDown at hinf
+      rw [round_down_bits lay fp hm1 hm2 hp2] at hinf
+      unfold encode at hinf
+      rw [hfp] at hinf
+      split at hinf
+      · assumption
+      · omega
+    have hval : roundNE F.fmt M (r ^ (-e).toNat) = F.fmt.infBits := by
+      have := roundNE_le_infBits lay.wf M (Nat.pow_pos (by omega) : 0 < r ^ (-e).toNat)
+      have := hbr.1
+      omega
+    have hfe : F.fmt.ebits = eb := by rw [lay.fmt]
+    unfold NegGuardInf at hg
+    rw [hfe] at hg
+    exact negativeDigitComp_inf lay hden hdbg (show r = 2 * (r / 2) by omega) Th T2 hM fp hm1 hm2 hp2 he he' hov hval
+      hg.1 hg.2
+
 /-! ## (d) `slow_radix` -/
 
 /-- the exponent `digit_comp` gives the big mantissa: leading digit at `radix^sciExp`, `c` digits -/
@@ -328,10 +376,10 @@ theorem slow_radix_correct {E : Env} {r : Nat} (h : EnvRadix E r) {F : FTy} {p e
         r ^ (digitExponent (scientificExponent r n.mantissa n.exponent) (mantissaOf r d (sigBytes n.integer n.fraction)).2).toNat <
         2 ^ (64 * E.L.bigintLimbs))
     (hneg : digitExponent (scientificExponent r n.mantissa n.exponent) (mantissaOf r d (sigBytes n.integer n.fraction)).2 < 0 →
-      2 ^ 63 ≤ fp.mant ∧ fp.mant < 2 ^ 64 ∧ fp.exp < 2 ^ 20 ∧ roundedDown F fp < F.fmt.infBits ∧
+      2 ^ 63 ≤ fp.mant ∧ fp.mant < 2 ^ 64 ∧ fp.exp < 2 ^ 20 ∧
       WeakBracket F fp (mantissaOf r d (sigBytes n.integer n.fraction)).1
         (r ^ (-digitExponent (scientificExponent r n.mantissa n.exponent) (mantissaOf r d (sigBytes n.integer n.fraction)).2).toNat) ∧
-      NegGuard E F p r (mantissaOf r d (sigBytes n.integer n.fraction)).1 fp
+      NegFit E F p r (mantissaOf r d (sigBytes n.integer n.fraction)).1 fp
         (digitExponent (scientificExponent r n.mantissa n.exponent) (mantissaOf r d (sigBytes n.integer n.fraction)).2)) :
     ∃ res, slowRadix E F radixFeature r n fp = some res ∧ 0 ≤ res.exp ∧
       extendedToFloat F res = roundNE F.fmt
@@ -386,8 +434,8 @@ theorem slow_radix_correct {E : Env} {r : Nat} (h : EnvRadix E r) {F : FTy} {p e
   · rw [if_pos he, if_pos he]
     exact positive_digit_comp_correct h hF hMpos he (by omega) (hpos he)
   · rw [if_neg he, if_neg he]
-    obtain ⟨a1, a2, a4, a5, a6, a7⟩ := hneg (by omega)
-    exact negative_digit_comp_correct_all h lay hden hMpos fp a1 a2 a4 (by omega) (by omega) a5 a6 a7
+    obtain ⟨a1, a2, a4, a6, a7⟩ := hneg (by omega)
+    exact negative_digit_comp_correct_total h lay hden hMpos fp a1 a2 a4 (by omega) (by omega) a6 a7
 
 /-! ## the value that is rounded -/
 
@@ -486,10 +534,10 @@ def slow_radix_correct_full : Prop :=
         r ^ (digitExponent (scientificExponent r n.mantissa n.exponent) (mantissaOf r d (sigBytes n.integer n.fraction)).2).toNat <
         2 ^ (64 * E.L.bigintLimbs)) →
     (digitExponent (scientificExponent r n.mantissa n.exponent) (mantissaOf r d (sigBytes n.integer n.fraction)).2 < 0 →
-      2 ^ 63 ≤ fp.mant ∧ fp.mant < 2 ^ 64 ∧ fp.exp < 2 ^ 20 ∧ roundedDown F fp < F.fmt.infBits ∧
+      2 ^ 63 ≤ fp.mant ∧ fp.mant < 2 ^ 64 ∧ fp.exp < 2 ^ 20 ∧
       WeakBracket F fp (mantissaOf r d (sigBytes n.integer n.fraction)).1
         (r ^ (-digitExponent (scientificExponent r n.mantissa n.exponent) (mantissaOf r d (sigBytes n.integer n.fraction)).2).toNat) ∧
-      NegGuard E F p r (mantissaOf r d (sigBytes n.integer n.fraction)).1 fp
+      NegFit E F p r (mantissaOf r d (sigBytes n.integer n.fraction)).1 fp
         (digitExponent (scientificExponent r n.mantissa n.exponent) (mantissaOf r d (sigBytes n.integer n.fraction)).2)) →
     ∃ res, slowRadix E F radixFeature r n fp = some res ∧ 0 ≤ res.exp ∧
       extendedToFloat F res = roundNE F.fmt
